@@ -704,7 +704,7 @@ class Interp:
             if p is not None:
                 self.store_struct(p, val)
             return
-        if n.k == "DeclRefExpr" and n.get("d") is not None and n.get("dk") in ("local", "param"):
+        if n.k == "DeclRefExpr" and n.get("d") is not None and n.get("dk") in ("local", "param", "slocal"):
             env[n.get("d")] = wrap(val, n.t) if isinstance(val, int) else val
             if n.get("dk") == "local" and n.get("d") in self.forced and fn is self.fn:
                 env[n.get("d")] = self.forced[n.get("d")]
@@ -946,7 +946,7 @@ class Interp:
                 g = self.global_ptr(t.name, fn)
                 if g is not None:
                     return g
-            if t.k == "DeclRefExpr" and t.get("d") is not None and t.get("dk") in ("local", "param"):
+            if t.k == "DeclRefExpr" and t.get("d") is not None and t.get("dk") in ("local", "param", "slocal"):
                 return ("ADDR", t.get("d"), t.t, env)      # address of a local: carries the frame it lives in
             return U
         v = self.rv(self.ev(e.c[0], env, fn, depth), env)
